@@ -83,7 +83,9 @@ impl Parser {
                         Spacing::Joint => Ok(Value::Symbol(self.parse_identifier(c.to_string()))),
                         Spacing::Alone => match c {
                             '-' => match self.peek() {
-                                Some(TokenTree::Literal(lit)) => {
+                                // Only a number takes a minus sign; in front of a
+                                // string or character literal it is the symbol `-`.
+                                Some(TokenTree::Literal(lit)) if is_numeric_literal(lit) => {
                                     let lit = lit.clone();
                                     self.eat_token();
                                     Ok(Value::Negated(lit))
@@ -181,6 +183,11 @@ impl Parser {
             },
         }
     }
+}
+
+/// Integer and float literals are the ones that start with a digit.
+fn is_numeric_literal(lit: &Literal) -> bool {
+    lit.to_string().starts_with(|c: char| c.is_ascii_digit())
 }
 
 fn string_literal(lit: &Literal) -> Result<String, ParseError> {
